@@ -17,7 +17,7 @@ pub enum Producer {
   Cone { depth: u8, delta: u8, lon: f64, lat: f64, radius: f64 },
   Ellipse { depth: u8, delta: u8, lon: f64, lat: f64, a: f64, b: f64, pa: f64 },
   Polygon { depth: u8, exact: bool, verts: Vec<(f64, f64)> },
-  Fixed { depth: u8, full: bool, capacity: usize, pushes: Vec<u64> },
+  Fixed { depth: u8, full: bool, capacity: usize, pushes: Vec<u64>, #[serde(default)] reuse: Option<usize> },
   Unsafe { spec: Spec, mode: u8, new_depth: u8 },
 }
 
@@ -192,9 +192,17 @@ fn produce(p: &Producer) -> Result<Option<BMOC>, String> {
       catch(|| Some(if *delta == 0 { nested::elliptical_cone_coverage(*depth, *lon, *lat, *a, *b, *pa) } else { nested::elliptical_cone_coverage_custom(*depth, *delta, *lon, *lat, *a, *b, *pa) }))
     }
     Producer::Polygon { depth, exact, verts } => catch(|| Some(nested::polygon_coverage(*depth, verts, *exact))),
-    Producer::Fixed { depth, full, capacity, pushes } => catch(|| {
+    Producer::Fixed { depth, full, capacity, pushes, reuse } => catch(|| {
       let mut b = BMOCBuilderFixedDepth::with_capacity(*depth, *full, *capacity);
-      for &h in pushes {
+      // a builder used again after to_bmoc(&mut self): the BMOC of the second use is the one examined
+      let k = reuse.map(|k| k.min(pushes.len())).unwrap_or(0);
+      for &h in &pushes[..k] {
+        b.push(h);
+      }
+      if reuse.is_some() {
+        let _ = b.to_bmoc();
+      }
+      for &h in &pushes[k..] {
         b.push(h);
       }
       b.to_bmoc()
@@ -234,6 +242,7 @@ pub fn check(c: &History, rec: &mut Rec) -> Result<(), Violation> {
       Producer::Cone { .. } => "cone",
       Producer::Ellipse { .. } => "ellipse",
       Producer::Polygon { .. } => "polygon",
+      Producer::Fixed { reuse: Some(_), .. } => "fixed_builder_reused",
       Producer::Fixed { .. } => "fixed_builder",
       Producer::Unsafe { .. } => "unsafe_builder",
     };
@@ -330,7 +339,7 @@ fn producer() -> BoxedStrategy<Producer> {
           pushes.push(h);
         }
       }
-      Producer::Fixed { depth, full, capacity, pushes }
+      Producer::Fixed { depth, full, capacity, reuse: if pushes.len() % 4 == 1 { Some(pushes.len() / 3) } else { None }, pushes }
     })
   });
   let uns = (prop_oneof![4 => 0u8..=7, 1 => prop::sample::select(vec![12u8, 20, 29])], any::<bool>(), 0u8..4, 0u8..=7, 0u8..4).prop_flat_map(|(dm, mixed, mode, nd, rel)| {
@@ -354,7 +363,7 @@ fn producer() -> BoxedStrategy<Producer> {
           pushes.push(h);
         }
       }
-      Producer::Fixed { depth, full, capacity, pushes }
+      Producer::Fixed { depth, full, capacity, reuse: if pushes.len() % 4 == 1 { Some(pushes.len() / 3) } else { None }, pushes }
     })
   });
   prop_oneof![6 => cone, 4 => ell, 4 => poly, 4 => fixed, 6 => uns, 1 => deep_cone, 1 => deep_ell, 1 => deep_fixed].boxed()
